@@ -114,7 +114,7 @@ impl Stdfs {
         if !src.is_dir() {
             return Err(PathError::is_not_dir(src.path_buf()).into());
         }
-        for entry in Stdfs::entries(src.path())?.min_depth(1).sort_by_name().dirs() {
+        for entry in Stdfs::entries(src.path())?.min_depth(1).sort_by_name().into_iter().filter_p(|x| x.is_dir() && !x.is_symlink()) {
             let entry = entry?;
             paths.push(entry.path_buf());
         }
@@ -147,7 +147,7 @@ impl Stdfs {
         if !src.is_dir() {
             return Err(PathError::is_not_dir(src.path_buf()).into());
         }
-        for entry in Stdfs::entries(src.path())?.min_depth(1).sort_by_name().files() {
+        for entry in Stdfs::entries(src.path())?.min_depth(1).sort_by_name().into_iter().filter_p(|x| x.is_file() && !x.is_symlink()) {
             let entry = entry?;
             paths.push(entry.path_buf());
         }
@@ -706,7 +706,7 @@ impl Stdfs {
         if !Stdfs::is_dir(&path) {
             return Err(PathError::is_not_dir(&path).into());
         }
-        for entry in Stdfs::entries(path)?.min_depth(1).max_depth(1).sort_by_name().dirs() {
+        for entry in Stdfs::entries(path)?.min_depth(1).max_depth(1).sort_by_name().into_iter().filter_p(|x| x.is_dir() && !x.is_symlink()) {
             let entry = entry?;
             paths.push(entry.path_buf());
         }
@@ -801,7 +801,7 @@ impl Stdfs {
         if !Stdfs::is_dir(&path) {
             return Err(PathError::is_not_dir(&path).into());
         }
-        for entry in Stdfs::entries(path)?.min_depth(1).max_depth(1).sort_by_name().files() {
+        for entry in Stdfs::entries(path)?.min_depth(1).max_depth(1).sort_by_name().into_iter().filter_p(|x| x.is_file() && !x.is_symlink()) {
             let entry = entry?;
             paths.push(entry.path_buf());
         }
